@@ -417,7 +417,7 @@ pub fn check_root_counters(p: &Pos, class: Class, solver: &mut Solver, acc: &mut
                 };
                 let mates: Vec<String> = mating_moves(p).iter().map(|x| x.uci()).collect();
                 if mating_moves(p).iter().all(|x| matches!(x.kind, MvKind::CastleShort | MvKind::CastleLong)) {
-                    acc.count("mate-in-1 roots whose only mating move is castling");
+                    acc.count(&format!("mate-in-1 roots whose only mating move is castling ({})", mates.join(" ")));
                 }
                 if !mates.contains(&m) {
                     acc.outcome("mate-in-1 missed");
@@ -482,7 +482,7 @@ pub fn run(tier: &str, seed: i64) -> Outcome {
         Space::slice(Universe::U2, if q { 4 } else { 1 }, off),
         // the castling side with the enemy king anywhere and one more piece: mates in one (and keys of mates in two)
         // that are castling moves - they exist only as long as the right is read and kept correctly
-        Space::slice(Universe::UCK { extras: 1 }, if q { 4 } else { 1 }, off),
+        Space::all(Universe::UCK { extras: 1 }),
         // the whole board for the second piece: mates that need the defender to be in zugzwang WITH a piece of his own
         // (the piece must move and unguard) - forward pruning that lets the defender "pass" loses exactly these
         Space::slice(Universe::U4 { a: code(Q, true), b: code(N, false), files: None }, if q { 192 } else { 6 }, off),
